@@ -1,4 +1,5 @@
 import PedVerif.Lemmas.CheckerExact
+import PedVerif.Lemmas.CheckerLit
 /-! Concrete class tables used by negation witnesses and non-vacuity examples. -/
 namespace PedVerif.Checker
 
@@ -46,6 +47,27 @@ theorem envC_wf : WfEnv envC := by
   refine ⟨?_, ?_, ?_⟩
   · intro c; simp [envC]
   · intro c; simp [envC]
+  · decide
+
+
+/-- class table for the iterator region: as `envW`, with 12 = collections.abc.Iterable (origin of `Iterable[..]`) and the one-shot
+    iterator class 6 registered as an Iterable -/
+def envI : Env := { envW with
+  sub := fun a b => a == b || b == 0 || (a == 6 && b == 12) || (a == 4 && b == 12)
+  seqCls := fun o => if o == .iterable then 12 else 4 }
+
+
+/-- a realistic class table: every class has its own name and `object` in its MRO, the context binds the one user class `A` (7) only.
+    The former global guard is false on it (as on every table the harness sends), the local guard is met by every case that has
+    no unresolvable string annotation - and by such a string too when the value's MRO does not carry the name. -/
+def envR : Env := { envW with
+  name := fun c => c
+  mroNames := fun c => if c == 0 then [0] else if c == 9 || c == 10 then [c, 5, 0] else [c, 0] }
+
+theorem envR_wf : WfEnv envR := by
+  refine ⟨?_, ?_, ?_⟩
+  · intro c; simp [envR, envW]
+  · intro c; simp [envR, envW]
   · decide
 
 
